@@ -34,6 +34,27 @@ CHECKS["C15"] = {
     "text": "(a) For every index pattern within the bound (<=2 args x <=2 dims x 2-3 symbols quick; up to 3 args / 3 dims / 4 symbols thorough), every block-count combination 1..3 with per-argument broadcast, new axes and every output coordinate, the key function returned by make_blockwise_back_key_function_flattened names exactly the blocks the index algebra designates (same array, argument position, coordinates; 0 on broadcast axes; explicit ValueError iff a contracted axis has several blocks). (b) For 14 fusion trees (depth 2-3) over key functions taken from the real operations (elementwise/broadcast/transpose via the index compiler; partial_reduce stream, stack alternating source, repeat and scan with block-id delivery, unstack multi-output: closures re-instantiated from the current code objects) the real fuse_blockwise_specs/fuse yield a spec whose evaluation on symbolic blocks equals the unfused evaluation, including list-vs-iterator structure. Decided by z3 on every path.",
     "note": "block functions are uninterpreted constructors; patterns with repeated symbols inside one index and literal arguments are outside; concat/index selection key functions are covered under C01/C02; fusion trees deeper than 3 outside.",
 }
+_GEOM_NOTE = ("NumPy's arithmetic on block values is an uninterpreted symbol (stubs/anp.py models only result shapes and index routing, validated against NumPy at check start); "
+              "zarr's orthogonal indexer is replaced by a validated port (stubs/indexer_model.py) when its inputs are symbolic; leaf arrays are metadata stubs; <=2 dims, sizes within the stated bounds; "
+              "executors, optimisation on/off, dtype casting tables are outside (C02/C06/C07).")
+CHECKS["C01"] = {
+    "engine": "sx",
+    "technique": "bounded symbolic execution (z3) of the real construction path and real task bodies on abstract arrays: element provenance vs NumPy index maps",
+    "text": "For 24 operation scenarios (elementwise incl. broadcasting and differently chunked inputs, sum/mean tree reductions, slicing with step, integer index, concat, stack, expand/squeeze, repeat, flip, cumulative_sum, roll, unstack, rechunk, permute_dims, broadcast_to, blocks view) the real cubed construction code runs on metadata-only arrays whose length, per-input chunk sizes and parameters are solver variables; the real plan is then evaluated on abstract blocks (real key functions, real map_nested, real block functions) and for a symbolic output element the provenance (which source elements, which argument position, which multiplicity for reductions) must equal NumPy's definition. Decided by z3 over all geometries within the bound (lengths <= 6 quick / 10 thorough), not sampled.",
+    "note": _GEOM_NOTE,
+}
+CHECKS["C12"] = {
+    "engine": "sx",
+    "technique": "bounded symbolic execution (z3): one task of every operation of the real plan at a symbolic block coordinate; block shape vs write region, declared vs NumPy shape, backing-array metadata",
+    "text": "For the C01 catalogue plus qr, reshape, matmul, argmax: declared shape equals NumPy's and the sum of the declared chunks; the lazy Zarr array is created with the declared shape/dtype/grid; and for EVERY operation of the plan (intermediate, fused-away candidates, every output of multi-output ops) the block the real function returns for the blocks the real key function selects has exactly the extent of the region key_to_slices computes - for all geometries and all block coordinates within the bound.",
+    "note": _GEOM_NOTE + " dtype truthfulness beyond 'backing array dtype == declared dtype' is a finite casting table and is outside.",
+}
+CHECKS["C17"] = {
+    "engine": "sx",
+    "technique": "bounded symbolic execution (z3) of the real construction path and one task per operation: type and phase of every reachable exception",
+    "text": "For the same catalogue and all geometries within the bound: an exception escaping construction is a ValueError/TypeError/NotImplementedError/IndexError (any other type, e.g. AssertionError or KeyError, is a violation), and a construction that succeeds yields operations whose key function and block function raise for no block coordinate, whose keys name existing blocks and whose blocks fit their regions. Known finding: scan's internal assertion (listed by signature; any other violation still fails the check).",
+    "note": _GEOM_NOTE + " Data-dependent failures inside NumPy and executor/storage faults are outside.",
+}
 for p in PENDING:
     if p not in CHECKS:
         NOT_APPLICABLE[p] = "check not built yet in this revision (planned, see DESIGN.md §5)"
